@@ -33,9 +33,12 @@ func genC06(seed uint64, tier string) C06Cfg {
 	drawID := func(seen map[uint16]bool) uint16 {
 		for {
 			var id uint16
-			if r.Bool(0.5) {
+			switch r.Intn(5) {
+			case 0, 1:
 				id = uint16(1 + r.Intn(40))
-			} else {
+			case 2:
+				id = boundaryIDs[r.Intn(len(boundaryIDs))] // 0, byte boundaries, 0xFFFF: zero values and truncations hide here
+			default:
 				id = uint16(r.Intn(65536))
 			}
 			if !seen[id] {
